@@ -62,6 +62,33 @@ def run(cx, chk):
                                           % (what, fld, fmt_val(n), fld), g["span"]["file"], e.get("ln"), g["q"], ["root " + f["q"]], cfg)
 
     ntrun.report_findings(cx, chk, ("C18.",), extra)
+    # R2: drop guards. Crate types with a Drop impl (other than the caches) are executed by the interpreter when they go out of scope and,
+    # from every user-code site whose cleanup chain drops one, along the unwinding path (absint.explore_unwind). What the guard's
+    # Drop::drop does to nodes is judged by the typestate walker: re-boxing a node that is still linked or indexed = dangling entry.
+    chk.rule("C18.R2", "drop guards: on every unwinding path out of a user-code site, and on every normal path, a guard frees a node only while it is unlinked and unindexed, and never twice")
+    from .lib import nt as ntmod
+    for cfg, F in cx.cfgs():
+        P = ntrun.prims(F)
+        n_unw = 0
+        guards = None
+        for f in api.roots(F):
+            cx.paths(cfg, f["path"])
+            for p in cx.unwound(cfg, f["path"]):
+                n_unw += 1
+                w = ntmod.NT(F, P, p, f["q"], ntrun.is_teardown(f)).run()
+                start = next((i for i, e in enumerate(p.events) if e["ev"] == "unwind_begin"), len(p.events))
+                for fd in w.findings:
+                    # only what the guard frees matters here: leaks and half-done list updates are what unwinding normally leaves behind
+                    if not (fd["rule"].startswith(("C03.R1", "C04.R1")) and ("Box::from_raw" in fd["msg"] or "freed node" in fd["msg"] or "re-boxed twice" in fd["msg"] or "double free" in fd["msg"])):
+                        continue
+                    idx = fd.get("idx")
+                    g = F.fns.get(fd["fn"]) or f
+                    site = p.events[start]
+                    chk.violation("C18.R2", "%s|%s|%s" % (f["q"], g["q"], ntrun.norm(fd["msg"])[:120]),
+                                  "if user code (%s, line %s) panics, the drop guard run while unwinding does this: %s (reached from %s)" % (site.get("q"), site.get("ln"), fd["msg"], f["q"]),
+                                  g["span"]["file"], fd["ln"], g["q"], ["root " + f["q"], "unwinding from line %s" % site.get("ln")], cfg)
+        it_guards = sorted(x for x in (im.get("self_head") for im in F.doc["impls"] if im.get("trait") == "core::ops::Drop") if x != api.CACHES["RawLRU"])
+        chk.ob("C18.R2", cfg + ":guards", "drop-guard types in the crate: %s; %d unwinding paths through a guard analysed" % (it_guards or "none", n_unw))
     for (cfg, fn, q, ln), n in sorted(sites.items()):
         chk.ob("C18.site", "%s:%s|%s" % (cfg, fn, q), "unwind-safe node states on %d path visits" % n,
                {"function": fn, "user_code_site": q, "path_visits": n})
